@@ -12,6 +12,7 @@
 (*   tol, step   solve.rs  parse_options                                   *)
 (*   evattr      solve.rs  parse_events  (terminal / direction attributes) *)
 (*   jac         solve.rs / ivp_wrapper.rs  constant | callable | FD       *)
+(*   jacread     ivp_wrapper.rs parse_matrix: strided element reads         *)
 (*   group       sparsity.rs group_columns + sparse_jacobian_fd            *)
 (* Level A (contract, from the statement of C20): the operators named      *)
 (* *Contract below.  TLC checks  LevelB => Contract  for every input of    *)
@@ -71,7 +72,17 @@ TermForms == {"absent", "false", "true", "int1", "int2"}
 DirForms  == {"absent", "m1", "z", "p1", "m1f", "zf", "p1f", "phalf", "mhalf", "p2"}
 DirHalves(d) == CASE d = "absent" -> 0 [] d = "m1" -> -2 [] d = "z" -> 0 [] d = "p1" -> 2 [] d = "m1f" -> -2
                   [] d = "zf" -> 0 [] d = "p1f" -> 2 [] d = "phalf" -> 1 [] d = "mhalf" -> -1 [] d = "p2" -> 4
-JacForms  == {"none", "ndarray", "intarray", "callable"}
+\* delivery forms of a Jacobian matrix (constant `jac`, or the value returned by a callable `jac`):
+\* C-ordered / Fortran-ordered float64, transposed view of a C array, strided view, integer dtypes
+JacMatrixForms == {"ndarray", "fortran", "tview", "strided", "intarray", "intfortran", "int32"}
+JacForms  == {"none", "callable"} \cup JacMatrixForms
+\* memory layout of a delivery form: <<offset of element (r, c) in the buffer (0-based r, c), buffer length>>
+JacLayouts == {"ndarray", "fortran", "tview", "strided"}
+LayoutOffset(layout, n, r, c) ==
+  CASE layout = "ndarray" -> r * n + c               \* C order
+    [] layout = "fortran" -> c * n + r               \* np.asfortranarray(J)
+    [] layout = "tview"   -> c * n + r               \* np.array(J.T, order='C').T : a C buffer holding J^T, viewed transposed
+    [] layout = "strided" -> (2 * r) * (2 * n) + 2 * c   \* K[::2, ::2] of a (2n, 2n) C array
 
 PatOf(n, code) == [r \in 1..n |-> [c \in 1..n |-> (code \div (2 ^ ((r - 1) * n + (c - 1)))) % 2]]
 BlockInputs == UNION { {[n |-> n, blk |-> b] : b \in {code % PatBlocks : code \in PatCodes(n)}} : n \in PatNs }
@@ -140,7 +151,10 @@ EvAttrContract(t, d, o) ==
 \* a constant or callable Jacobian is honoured; njev of a constant Jacobian is not constrained (SciPy reports 0)
 JacContract(form, o) ==
   /\ (form = "none" => o.source = "fd")
-  /\ (form \in {"ndarray", "intarray", "callable"} => o.source = "user")
+  /\ (form \in JacMatrixForms \cup {"callable"} => o.source = "user")
+
+\* whatever the memory layout of the delivered array, the solver must see J[r][c] = d f_r / d y_c (the logical element)
+JacReadContract(n, o) == \A r \in 1..n : \A c \in 1..n : o.J[r][c] = Src(r - 1, c - 1)
 
 \* column grouping: columns are 1..n, groups 0..ngroups-1
 ColRows(n, R, c) == {r \in 1..n : R[r][c] = 1}
@@ -290,7 +304,29 @@ ParseEvAttr ==
 ParseJac ==
   /\ mach = "jac" /\ pc = "alloc"
   /\ out' = [source |-> IF inp = "none" THEN "fd" ELSE "user",
-             njev |-> IF inp \in {"ndarray", "intarray"} THEN "zero" ELSE "solver"]   \* is_constant_jac => njev = 0
+             njev |-> IF inp \in JacMatrixForms THEN "zero" ELSE "solver"]   \* is_constant_jac => njev = 0
+  /\ pc' = "done" /\ UNCHANGED <<mach, inp, st>>
+
+\* ---- parse_matrix (ivp_wrapper.rs): element-wise read through the array's strides ----
+JBuffer ==     \* the numpy buffer of the delivered array: logical element (r, c) stored at LayoutOffset
+  /\ mach = "jacread" /\ pc = "alloc"
+  /\ LET n == inp.n
+         len == IF inp.layout = "strided" THEN 4 * n * n ELSE n * n
+         cell(k) == LET hits == {rc \in (0..(n - 1)) \X (0..(n - 1)) : LayoutOffset(inp.layout, n, rc[1], rc[2]) = k}
+                    IN IF hits = {} THEN Zero ELSE LET rc == CHOOSE x \in hits : TRUE IN Src(rc[1], rc[2])
+     IN st' = [buf |-> [k \in 1..len |-> cell(k - 1)], row |-> 0, col |-> 0, J |-> [r \in 1..n |-> [c \in 1..n |-> Zero]]]
+  /\ pc' = "loop" /\ UNCHANGED <<mach, inp, out>>
+
+JRead ==       \* j[(row, col)] = res_arr.get([row, col])   (get applies the strides)
+  /\ mach = "jacread" /\ pc = "loop" /\ st.row < inp.n
+  /\ st' = [st EXCEPT !.J[st.row + 1][st.col + 1] = st.buf[LayoutOffset(inp.layout, inp.n, st.row, st.col) + 1],
+                      !.col = IF st.col + 1 < inp.n THEN st.col + 1 ELSE 0,
+                      !.row = IF st.col + 1 < inp.n THEN st.row ELSE st.row + 1]
+  /\ UNCHANGED <<mach, pc, inp, out>>
+
+JDone ==
+  /\ mach = "jacread" /\ pc = "loop" /\ st.row = inp.n
+  /\ out' = [J |-> st.J]
   /\ pc' = "done" /\ UNCHANGED <<mach, inp, st>>
 
 \* ---- group_columns (sparsity.rs) ----
@@ -368,6 +404,7 @@ Init ==
      \/ mach = "step" /\ inp \in StepForms
      \/ mach = "evattr" /\ inp \in [terminal : TermForms, direction : DirForms]
      \/ mach = "jac" /\ inp \in JacForms
+     \/ mach = "jacread" /\ inp \in [n : 1..3, layout : JacLayouts]
      \/ mach = "group" /\ inp \in BlockInputs
   /\ pc = (IF mach = "group" THEN "pick" ELSE "alloc") /\ st = Nothing /\ out = Nothing
 
@@ -375,6 +412,7 @@ Next ==
   \/ TAlloc \/ TWrite \/ TEmptyRow \/ TReshape
   \/ EStart \/ EExtend \/ EReshape
   \/ SScalar \/ SStart \/ SEval \/ SEvalDone \/ STranspose \/ SReshape
+  \/ JBuffer \/ JRead \/ JDone
   \/ StatusMap \/ ParseMethod \/ ParseTol \/ ParseStep \/ ParseEvAttr \/ ParseJac
   \/ GPick \/ GStart \/ GAssign \/ GNew \/ GFdStart \/ GFdGroup \/ GDone
 
@@ -394,6 +432,7 @@ Contract ==
       [] mach = "step" -> StepContract(inp, out)
       [] mach = "evattr" -> EvAttrContract(inp.terminal, inp.direction, out)
       [] mach = "jac" -> JacContract(inp, out)
+      [] mach = "jacread" -> JacReadContract(inp.n, out)
       [] mach = "group" -> GroupsContract(inp.n, inp.rows, out) /\ FDContract(inp.n, inp.rows, out)
 
 \* where Level B departs from the literal statement: exactly the empty shapes (m = 0 with n >= 1; sol of an empty array)
@@ -418,11 +457,12 @@ Scenario ==
     [] mach = "evattr" -> [kind |-> "evattr", terminal |-> inp.terminal, direction |-> inp.direction,
                            rterm |-> out.rterm, rdir |-> out.rdir, doc |-> (DocTerm(inp.terminal) /\ DocDir(inp.direction))]
     [] mach = "jac" -> [kind |-> "jac", form |-> inp, source |-> out.source, njev |-> out.njev]
+    [] mach = "jacread" -> [kind |-> "jaclayout", n |-> inp.n, form |-> inp.layout]
     [] mach = "group" -> [kind |-> "pattern", n |-> inp.n, rows |-> inp.rows, groups |-> out.groups, ngroups |-> out.ngroups]
 
 Emit == pc = "done" => PrintT(<<"REPLAY", ToJson(Scenario)>>)
 
 TypeOK ==
-  /\ mach \in {"transpose", "evflat", "sol", "status", "method", "tol", "step", "evattr", "jac", "group"}
+  /\ mach \in {"transpose", "evflat", "sol", "status", "method", "tol", "step", "evattr", "jac", "jacread", "group"}
   /\ pc \in {"pick", "alloc", "loop", "eval", "tr", "cols", "fd", "done"}
 =============================================================================
